@@ -153,6 +153,32 @@ def guarded(fn: Callable, *args: Any) -> Tuple[Any, List[str]]:
     return out, g.changes()
 
 
+def exact_diff(a: Any, b: Any) -> List[str]:
+    return leaf_diff(a, b, rtol=0.0, atol=0.0)
+
+
+class Held:
+    """Result objects returned by earlier eager calls, each with a host snapshot taken right after the call.
+    `changed()` re-reads the very objects: a later call must not have altered any of them (aliasing of mutable
+    containers between results / with Python-side state shows as a value change here)."""
+
+    def __init__(self) -> None:
+        self.items: List[Tuple[str, Any, Any]] = []
+
+    def add(self, label: str, out: Any) -> Any:
+        snap = canon(out)
+        self.items.append((label, out, snap))
+        return snap
+
+    def changed(self, skip_last: bool = False) -> Optional[Tuple[int, str, List[str]]]:
+        items = self.items[:-1] if skip_last else self.items
+        for j, (label, obj, snap) in enumerate(items):
+            d = exact_diff(snap, canon(obj))
+            if d:
+                return j, label, d
+        return None
+
+
 def seeded_order(n: int, seed: int, salt: str) -> List[int]:
     """A permutation of range(n) rotated by VERIF_SEED (only decides WHICH cases get the eager run)."""
     return sorted(range(n), key=lambda i: hashlib.sha1(f"{seed}:{salt}:{i}".encode()).digest())
@@ -519,6 +545,7 @@ def _check_config(cx: "Ctx", cfg_name: str, family: str, ctor: str, kind: str, t
     slow = family in SLOW_EAGER
     eager_cost: List[float] = []
     n_eager_step = 0
+    held_steps, held_docs = Held(), []
     for i in order:
         if n_eager_step >= 2:
             if tier == "quick" and slow:
@@ -529,7 +556,8 @@ def _check_config(cx: "Ctx", cfg_name: str, family: str, ctor: str, kind: str, t
         s_in, a_in = as_jnp(t_index(T["parent"], i)), A_j[int(T["act"][i])]
         out, mut = guarded(env.step, s_in, a_in)
         eager_cost.append(time.time() - tc)
-        got = canon(out)
+        got = held_steps.add(f"step #{n_eager_step + 1}", out)
+        held_docs.append(_member(T, i, actions))
         d = leaf_diff((t_index(T["child"], i), t_index(T["ts"], i)), got)
         n_eager_step += 1
         cx.count("n_eager")
@@ -539,6 +567,12 @@ def _check_config(cx: "Ctx", cfg_name: str, family: str, ctor: str, kind: str, t
             cx.violation("step:eager-vs-jit-differs", f"un-jitted env.step differs from the jitted graph: {d[:4]}", doc)
         if mut:
             cx.violation("argument-mutated", f"env.step modified its arguments: {mut[:4]}", doc)
+    ch = held_steps.changed()
+    cx.count("n_held_rechecks", len(held_steps.items))
+    if ch:
+        cx.violation("earlier-result-changed-by-later-call", f"the result object of eager {ch[1]} no longer has the values it "
+                     f"had when it was returned, after later eager steps on the same env: {ch[2][:4]}",
+                     {"kind": "step-held", "members": held_docs, "failing": ch[0]})
     timing["eager_step_s"] = round(time.time() - t0, 2)
     step_eager_s = min(eager_cost) if eager_cost else None
 
@@ -563,32 +597,42 @@ def _check_config(cx: "Ctx", cfg_name: str, family: str, ctor: str, kind: str, t
                 cx.violation(f"reset:vmap{b}-differs", f"vmap(env.reset) with batch size {b} differs: {d[:4]}",
                              {"kind": "reset-mode", "mode": "vmap", "batch": b, "keys": [KEY_WINDOW[i] for i in idx],
                               "failing": _first_bad_member(exp, got, b)})
-    t1 = time.time()
+    # eager `[env.reset(k) for k in keys]` on the one object: every result is compared when returned AND all of them
+    # again, still held, after the last reset, with vmap(reset)(keys) (the graph roots)
     reset_cost: List[float] = []
-    n_eager_reset = 0
     eager_reset_note = None
-    for r in seeded_order(len(KEY_WINDOW), seed, "eager-reset"):
-        if n_eager_reset >= 1:
-            if tier == "quick" and slow:
-                break
-            if time.time() - t1 > B["eager_reset_s"]:
-                break
+    held_resets = Held()
+    for r, k in enumerate(KEY_WINDOW):
         tc = time.time()
-        k_in = prng(KEY_WINDOW[r])
-        out, mut = guarded(env.reset, k_in)
+        out, mut = guarded(env.reset, prng(k))
         reset_cost.append(time.time() - tc)
-        d = leaf_diff((t_index(root_s, r), t_index(root_ts, r)), canon(out))
-        n_eager_reset += 1
+        got = held_resets.add(f"reset({k})", out)
+        d = leaf_diff((t_index(root_s, r), t_index(root_ts, r)), got)
         cx.count("n_reset_eager")
         cx.count("n_argument_checks")
-        doc = {"kind": "reset-mode", "mode": "eager", "keys": [KEY_WINDOW[r]], "failing": 0}
+        doc = {"kind": "reset-mode", "mode": "eager", "keys": [k], "failing": 0}
         if d:
             cx.violation("reset:eager-vs-jit-differs", f"un-jitted env.reset differs from the jitted graph: {d[:4]}", doc)
         if mut:
             cx.violation("argument-mutated", f"env.reset modified its argument: {mut[:4]}", doc)
-        if reset_cost[-1] > 60.0:
-            eager_reset_note = f"one eager reset took {reset_cost[-1]:.0f}s"
+        if reset_cost[-1] > 20.0 and r + 1 < len(KEY_WINDOW):
+            eager_reset_note = (f"eager reset({k}) took {reset_cost[-1]:.0f}s (> 20 s): the remaining "
+                                f"{len(KEY_WINDOW) - r - 1} eager resets of the key window were skipped")
+            break
+    n_held = len(held_resets.items)
+    ch = held_resets.changed()
+    held_vs_vmap = leaf_diff((t_index(root_s, slice(0, n_held)), t_index(root_ts, slice(0, n_held))),
+                             tmap(lambda *v: np.stack(v), *[canon(o) for _, o, _ in held_resets.items]))
+    cx.count("n_held_rechecks", n_held)
+    cx.count("n_reset_list_vs_vmap", n_held if n_held > 1 else 0)
+    if ch or held_vs_vmap:
+        what = (f"the object returned by eager {ch[1]} changed after later resets: {ch[2][:4]}" if ch else
+                f"differs: {held_vs_vmap[:4]}")
+        cx.violation("earlier-result-changed-by-later-call" if ch else "reset:eager-list-vs-vmap-differs",
+                     f"[env.reset(k) for k in {KEY_WINDOW[:n_held]}] held until the end vs vmap(reset)(keys): {what}",
+                     {"kind": "reset-mode", "mode": "eager-held", "keys": KEY_WINDOW[:n_held], "failing": ch[0] if ch else 0})
     timing["reset_s"] = round(time.time() - t0, 2)
+    n_eager_reset = len(reset_cost)
     reset_eager_s = min(reset_cost) if reset_cost else None
 
     # ------------------------------------------------------------------ (2)+(3) call histories, instances
@@ -623,7 +667,7 @@ def _check_config(cx: "Ctx", cfg_name: str, family: str, ctor: str, kind: str, t
         "modes": {k: cx.vac.get(k, 0) for k in ("n_jit", "n_vmap", "n_scan", "n_scan_steps", "n_eager", "n_reset_jit",
                                                 "n_reset_vmap", "n_reset_eager", "n_histories", "n_history_calls",
                                                 "n_history_eager_calls", "n_trace_probes", "n_argument_checks",
-                                                "n_instance_calls")},
+                                                "n_instance_calls", "n_held_rechecks", "n_reset_list_vs_vmap")},
         "history_mode": hist["mode"], "history_alphabet": hist["alphabet"], "instance_check": hist["instances"],
         "eager_step_s": None if step_eager_s is None else round(step_eager_s, 3),
         "eager_reset_s": None if reset_eager_s is None else round(reset_eager_s, 3),
@@ -706,7 +750,9 @@ def probe_after_history(envh: Any, calls: CallSet, fresh_prog: Dict[str, Any], e
 
 def run_history(envh: Any, seq: Sequence[str], calls: CallSet, expected: Dict[str, Any]
                 ) -> Tuple[int, Optional[Tuple[int, str, List[str]]]]:
-    """Run `seq` eagerly on the single object `envh`.  -> (calls made, None | (index, what, details))"""
+    """Run `seq` eagerly on the single object `envh`; every result object is kept and, after each later call and
+    at the end, must still hold the values it had when returned.  -> (calls made, None | (index, what, details))"""
+    held = Held()
     for n, name in enumerate(seq):
         fn, args = calls.args(name)
         try:
@@ -715,9 +761,14 @@ def run_history(envh: Any, seq: Sequence[str], calls: CallSet, expected: Dict[st
             return n + 1, (n, "history-dependent-result", [f"call raised {type(e).__name__}: {str(e)[:300]}"])
         if mut:
             return n + 1, (n, "argument-mutated", mut)
-        d = leaf_diff(expected[name], canon(out))
+        got = held.add(f"#{n + 1} {name}", out)
+        d = leaf_diff(expected[name], got)
         if d:
             return n + 1, (n, "history-dependent-result", d)
+        ch = held.changed(skip_last=True)
+        if ch:
+            return n + 1, (n, "earlier-result-changed-by-later-call",
+                           [f"result object of call {ch[1]} changed after call #{n + 1} {name}"] + ch[2])
     return len(seq), None
 
 
@@ -730,6 +781,10 @@ def classify_history_failure(ctor: str, name: str, calls: CallSet, expected: Dic
     except Exception:  # noqa: BLE001
         return "history-dependent-result"
     return f"{fn}:eager-vs-jit-differs" if leaf_diff(expected[name], alone) else "history-dependent-result"
+
+
+_HOW = {"argument-mutated": "modified its arguments",
+        "earlier-result-changed-by-later-call": "altered a result object returned by an earlier call"}
 
 
 def run_histories(cx: Ctx, env: Any, twin: Any, gx: GraphExec, ctor: str, actions: np.ndarray, root_s: Any,
@@ -789,7 +844,7 @@ def run_histories(cx: Ctx, env: Any, twin: Any, gx: GraphExec, ctor: str, action
     # -- histories
     maximal = list(itertools.product(CALLS, repeat=L))
     n_hist = sum(len(CALLS) ** l for l in range(1, L + 1))
-    mode = "eager" if eager_cheap else ("eager, length<=2" if tier == "thorough" else "eager-first-call+trace-probe")
+    mode = "eager" if eager_cheap else ("eager, length<=2" if tier == "thorough" else "eager-reset-pairs+first-step+trace-probe")
     samples: List[Any] = []
     if eager_cheap or tier == "thorough":
         if not eager_cheap:
@@ -803,12 +858,13 @@ def run_histories(cx: Ctx, env: Any, twin: Any, gx: GraphExec, ctor: str, action
             cx.count("n_history_calls", n_calls)
             cx.count("n_history_eager_calls", n_calls)
             cx.count("n_argument_checks", n_calls)
+            cx.count("n_held_rechecks", max(0, n_calls - 1))
             if bad:
                 i, what, d = bad
                 if what == "history-dependent-result":
                     what = classify_history_failure(ctor, seq[i], calls, expected)
                 cx.violation(what, f"call #{i + 1} {seq[i]} after history {list(seq[:i])} on one object (eager) "
-                             f"{'modified its arguments' if what == 'argument-mutated' else 'differs from the same call on a fresh instance'}: {d[:4]}",
+                             f"{_HOW.get(what, 'differs from the same call on a fresh instance')}: {d[:4]}",
                              dict(base, kind="history", mode="eager", history=list(seq[: i + 1]), failing=i))
                 continue
             n_p, badp = probe_after_history(envh, calls, fresh_prog, expected)
@@ -819,28 +875,34 @@ def run_histories(cx: Ctx, env: Any, twin: Any, gx: GraphExec, ctor: str, action
                              dict(base, kind="history", mode="trace-after-history", history=list(seq), probe=badp[0]))
         samples.append({"model": cx.model, "what": "history on one object", "mode": mode, "history": list(maximal[len(maximal) // 3]), **base})
     else:
-        # slow eager (quick tier): one object per first call c1 (run eagerly, compared, arguments checked), then
-        # reset and step are traced from scratch on that object: the traced program after c1 decides all (c1, c2)
+        # slow eager (quick tier): the two reset pairs (no eager step needed) and one object per first step call are
+        # run eagerly (compared, earlier results re-checked, arguments checked); then reset and step are traced from
+        # scratch on that object: the traced program after the first call decides the remaining (c1, c2)
         n_hist = len(CALLS) + len(CALLS) ** 2
-        for c1 in CALLS:
+        firsts = [(CALLS[0], CALLS[1]), (CALLS[1], CALLS[0])] + [(c,) for c in CALLS[2:]]
+        for seq in firsts:
             envh = _make(ctor)
-            n_calls, bad = run_history(envh, (c1,), calls, expected)
+            n_calls, bad = run_history(envh, seq, calls, expected)
             cx.count("n_history_calls", n_calls)
             cx.count("n_history_eager_calls", n_calls)
             cx.count("n_argument_checks", n_calls)
+            cx.count("n_held_rechecks", max(0, n_calls - 1))
             if bad:
-                what = classify_history_failure(ctor, c1, calls, expected) if bad[1] == "history-dependent-result" else bad[1]
-                cx.violation(what, f"first call {c1} on a new object (eager): {bad[2][:4]}",
-                             dict(base, kind="history", mode="eager", history=[c1], failing=0))
+                i, what, d = bad
+                if what == "history-dependent-result":
+                    what = classify_history_failure(ctor, seq[i], calls, expected)
+                cx.violation(what, f"call #{i + 1} {seq[i]} after history {list(seq[:i])} on one object (eager) "
+                             f"{_HOW.get(what, 'differs from the same call on a fresh instance')}: {d[:4]}",
+                             dict(base, kind="history", mode="eager", history=list(seq[: i + 1]), failing=i))
                 continue
             n_p, badp = probe_after_history(envh, calls, fresh_prog, expected)
             cx.count("n_trace_probes", n_p)
-            cx.count("n_history_calls", len(CALLS))
+            cx.count("n_history_calls", len(CALLS) - (len(seq) - 1))
             if badp:
-                cx.violation("history-dependent-result", f"{badp[0]} traced under a fresh jax.jit after the eager call "
-                             f"{c1} on the same object differs from a fresh instance: {badp[1][:4]}",
-                             dict(base, kind="history", mode="trace-after-history", history=[c1], probe=badp[0]))
-        samples.append({"model": cx.model, "what": "history on one object", "mode": mode, "history": [CALLS[2], CALLS[0]], **base})
+                cx.violation("history-dependent-result", f"{badp[0]} traced under a fresh jax.jit after the eager history "
+                             f"{list(seq)} on the same object differs from a fresh instance: {badp[1][:4]}",
+                             dict(base, kind="history", mode="trace-after-history", history=list(seq), probe=badp[0]))
+        samples.append({"model": cx.model, "what": "history on one object", "mode": mode, "history": list(firsts[0]), **base})
     cx.count("n_histories", n_hist)
     return {"n_histories": n_hist, "mode": mode, "alphabet": base, "samples": samples, "instances": inst_how}
 
@@ -904,12 +966,31 @@ def replay_case(doc: Dict[str, Any]) -> int:
                 got = canon(reset_v(jnp.stack([prng(k) for k in keys])))
                 rc |= _show(f"{mark('vmap', keys)}vmap(reset) batch {keys}",
                             leaf_diff((t_index(root_s, idx), t_index(root_ts, idx)), got))
-        for k in (r["keys"] if r["mode"] == "eager" else KEY_WINDOW[:1]):
+        held = Held()
+        ekeys = r["keys"] if r["mode"].startswith("eager") else KEY_WINDOW[:1]
+        for k in ekeys:
             i = KEY_WINDOW.index(k)
             out, mut = guarded(env.reset, prng(k))
-            rc |= _show(f"{mark('eager', [k])}eager reset({k})", leaf_diff((t_index(root_s, i), t_index(root_ts, i)), canon(out)))
+            got = held.add(f"reset({k})", out)
+            rc |= _show(f"{mark('eager', [k])}eager reset({k})", leaf_diff((t_index(root_s, i), t_index(root_ts, i)), got))
             rc |= _show("  arguments", mut)
+        ch = held.changed()
+        rc |= _show(f"{mark('eager-held', list(ekeys))}results of the eager resets {list(ekeys)} still unchanged at the end",
+                    [] if ch is None else [f"object returned by {ch[1]} changed"] + ch[2])
         return rc
+    if kind == "step-held":
+        held = Held()
+        rc = 0
+        for n, m in enumerate(r["members"]):
+            st = t_index(root_s, KEY_WINDOW.index(m["key"]))
+            for a in m["path"]:
+                st = t_index(gx.children(st)[0], a)
+            cs, cts = gx.children(st)
+            out, mut = guarded(env.step, as_jnp(st), jnp.asarray(A_np[m["action_index"]]))
+            got = held.add(f"step #{n + 1}", out)
+            rc |= _show(f"eager step #{n + 1}", leaf_diff((t_index(cs, m["action_index"]), t_index(cts, m["action_index"])), got))
+        ch = held.changed()
+        return rc | _show("earlier results unchanged at the end", [] if ch is None else [f"object returned by {ch[1]} changed"] + ch[2])
     if kind == "step-mode":
         par, act, exp_s, exp_ts = [], [], [], []
         for m in r["members"]:
